@@ -7,6 +7,7 @@ pieces.  Oracle: vf/ref/intrinsics.py (written from the States Language)."""
 import vf; vf.setup_paths()
 import copy, re as _re, json as _json, base64 as _b64
 from vf.api import condition
+from vf import stubs
 from vf.ref import intrinsics as ref
 from asl_workflow_engine import state_engine_paths as sep
 from asl_workflow_engine.asl_exceptions import IntrinsicFailure, PathMatchFailure, ParameterPathFailure
@@ -945,3 +946,25 @@ def template_empty_or_absent(kind: int, x: int) -> bool:
     if kind == 0:
         return got == ("ok", inp)                 # no template: the input passes through
     return got[0] == "ok" and ref.same(got[1], tpl) and got[1] is not inp     # an empty object selects {}, not the input
+
+
+# numeric literals: the digits of an argument are parsed by the tokeniser itself (values that arrive through a Path
+# are not).  Magnitudes around the places where a detour through a binary64 float, a 32/64-bit word or a fixed digit
+# count would show; the offset around each base is symbolic.
+BIG_BASES = [0, 2 ** 31, 2 ** 53, 2 ** 63, 10 ** 18 + 10 ** 9, 2 ** 64, 10 ** 30]
+NUM_FORMS = ["States.Array({0})", "States.MathAdd({0}, 0)", "States.MathAdd(1, {0})", "States.ArrayContains(States.Array({0}), {1})",
+             "States.ArrayUnique(States.Array({0}, {1}))", "States.ArrayGetItem(States.Array({0}, 7), 0)", "States.JsonToString({0})"]
+
+
+@condition(timeout={"quick": 120, "thorough": 300}, bounds={"quick": {"D": 2}, "thorough": {"D": 6}}, functions=[_ARGS, _F + "Array", _F + "MathAdd", _F + "ArrayContains", _F + "ArrayUnique", _F + "ArrayGetItem", _F + "JsonToString"],
+           outside=["integer literals other than base + d for the listed bases (powers of two / ten where a machine representation would change)"])
+def numeric_literal_integers(bi: int, d: int, neg: bool, form: int) -> bool:
+    """
+    requires: 0 <= bi < len(BIG_BASES) and -@D@ <= d <= @D@ and 0 <= form < len(NUM_FORMS)
+    ensures: _
+    """
+    n = pick(BIG_BASES, bi) + stubs.cint(d, -6, 6)
+    if neg:
+        n = -n
+    expr = pick(NUM_FORMS, form).format(str(n), str(n + 1))
+    return check(expr)
